@@ -386,3 +386,110 @@ def scan(repo: Repo, reg, tier):
                  "SQLAlchemy objects are not mutated by the builder calls (generative API)",
                  "intraprocedural freshness analysis: a container is 'allocated in this call' if bound from a display, comprehension, list()/set()/dict()/tuple(), a constructor call, .copy() or dataclasses.replace",
                  "byte-identical SQL text across calls is not checked beyond purity of the producing functions"]
+
+
+# ---------------------------------------------------------------------------------------------- hashability of stored values
+_FV = None
+
+
+def _frozen_work(key):
+    res, meta = _FV.verify_function(key)
+    return key, [r.to_json() for r in res], meta.get("error")
+
+
+def frozen_field_obligations(repo: Repo, reg, tier):
+    """Hashability at the value level: every construction, anywhere in the library, of a frozen dataclass that has a
+    compared field declared ``frozenset[...]`` stores a frozenset there (a ``set`` compares equal but makes the object and
+    every relation containing it unhashable).  The obligations are generated by the symbolic executor while it runs the
+    real bodies of the functions that contain such a construction (set / frozenset kinds are tracked through ``|``,
+    ``-``, ``&`` -- the result has the type of the LEFT operand -- calls, fields and parameters)."""
+    import multiprocessing as mp
+
+    from pyvc.contracts import Registry
+    from pyvc.verify import ERROR, PROVED, OblResult, Verifier, expand_keys
+    from spec.vocab import Spec
+
+    global _FV
+    classes = {c.name for c in repo.all_classes() if c.is_dataclass and c.dc_frozen and c.dc_eq
+               and any(f.compare and not f.initvar and ast.unparse(f.annotation).replace(" ", "").startswith("frozenset[") for f in c.all_fields())}
+    for c in list(repo.all_classes()):
+        if any(b.name in classes for b in c.mro):
+            classes.add(c.name)
+    reg2 = Registry()
+    reg2.load("c20", "sqlsel", "processor", "iteration")
+    sites = {}
+    for fi in repo.all_functions():
+        n = 0
+        for nd in ast.walk(fi.node):
+            if isinstance(nd, ast.Call):
+                f = nd.func
+                name = f.id if isinstance(f, ast.Name) else (f.attr if isinstance(f, ast.Attribute) else "")
+                if name in classes or name == "replace" or (name == "cls" and fi.cls is not None and fi.cls.name in classes):
+                    n += 1
+        if fi.node.returns is not None and ast.unparse(fi.node.returns).replace(" ", "").replace('"', "").replace("'", "").startswith("frozenset["):
+            n += 1  # declared to return a frozenset: callers rely on it
+        if n:
+            sites[fi.key] = n
+    verifiable = []
+    for pid in sorted({p for c in reg2.contracts.values() for p in c.properties}):
+        for k2 in expand_keys(repo, reg2, pid):
+            if k2 in sites and k2 not in verifiable:
+                verifiable.append(k2)
+    uncovered = sorted(k for k in sites if k not in verifiable)
+    _FV = Verifier(repo, reg2, Spec, timeout_ms=5000)
+    _FV.only_kinds = {"frozen-field"}
+    out = []
+    with mp.get_context("fork").Pool(min(16, max(1, len(verifiable)))) as pool:
+        for key, res, err in pool.imap_unordered(_frozen_work, verifiable):
+            if err:
+                out.append(OblResult(f"C09/stored-frozenset/{key}", key, "stored-frozenset", "", "subset", ERROR, reason=err[:300]))
+            for r in res:
+                if r["kind"] != "frozen-field":
+                    continue
+                out.append(OblResult(f"C09/stored-frozenset/{key}/{r['clause']}", key, r["clause"], r["path"], "scan", r["status"] if r["status"] == PROVED else "refuted",
+                                     solver="pyvc (kind tracking)", lineno=r.get("lineno"),
+                                     reason="" if r["status"] == PROVED else f"{key} line {r.get('lineno')}: a set that is not statically a frozenset is stored in a field declared frozenset[...] ({r['clause']}, path {r['path'][-80:]})"))
+    # functions without a contract: a syntactic rule decides their construction sites (the argument for each frozenset
+    # field is missing -- the default is a frozenset -- or literally a ``frozenset(...)`` call)
+    still = []
+    for key in uncovered:
+        fi = repo.func(key)
+        decided = True
+        for nd in ast.walk(fi.node):
+            if not isinstance(nd, ast.Call):
+                continue
+            f = nd.func
+            name = f.id if isinstance(f, ast.Name) else (f.attr if isinstance(f, ast.Attribute) else "")
+            if name == "replace" or (name == "cls" and fi.cls is not None and fi.cls.name in classes):
+                if name == "replace" and not any(kw.arg in ("columns", "min_columns", "max_columns") for kw in nd.keywords):
+                    continue  # replaces other fields only: the frozenset fields are copied from an existing object
+                decided = False
+                continue
+            if name not in classes:
+                continue
+            ci = repo.cls(name)
+            flds = [x for x in ci.all_fields() if x.init]
+            pos = [x for x in flds if not x.kw_only]
+            for idx, x in enumerate(flds):
+                if not (x.compare and ast.unparse(x.annotation).replace(" ", "").startswith("frozenset[")):
+                    continue
+                arg = None
+                if x in pos and pos.index(x) < len(nd.args):
+                    arg = nd.args[pos.index(x)]
+                for kw in nd.keywords:
+                    if kw.arg == x.name:
+                        arg = kw.value
+                ok = arg is None or (isinstance(arg, ast.Call) and isinstance(arg.func, ast.Name) and arg.func.id == "frozenset")
+                out.append(OblResult(f"C09/stored-frozenset/{key}/construct {name}/field-{x.name}-holds-a-frozenset", key, f"construct {name}/field-{x.name}", "", "scan",
+                                     PROVED if ok else "refuted", solver="ast-scan", lineno=nd.lineno,
+                                     reason="" if ok else f"{key} line {nd.lineno}: the argument for {name}.{x.name} is not literally a frozenset(...) call"))
+        if fi.node.returns is not None and "frozenset[" in ast.unparse(fi.node.returns) and not all(
+                isinstance(r.value, ast.Attribute) or (isinstance(r.value, ast.Call) and isinstance(r.value.func, ast.Name) and r.value.func.id == "frozenset")
+                for r in ast.walk(fi.node) if isinstance(r, ast.Return) and r.value is not None):
+            decided = False
+        if not decided:
+            still.append(key)
+    uncovered = still
+    if len([o for o in out if o.kind == "scan"]) < 10:
+        out.append(OblResult("C09/stored-frozenset/vacuity", "scan", "construction-sites-found", "", "vacuity", ERROR, reason=f"only {len(out)} construction obligations generated"))
+    return out, ["functions that construct a frozenset-bearing dataclass but have no contract (their construction sites are not covered by the stored-frozenset obligations): " + ", ".join(uncovered)]
